@@ -42,7 +42,7 @@ TYPE_TABLES = {"WIRE_VARINT_TYPES": "Gen.wireVarintTypes", "WIRE_FIXED_32_TYPES"
                "FIXED_TYPES": "Gen.fixedTypes", "PACKED_TYPES": "Gen.packedTypes", "INT_64_TYPES": "Gen.int64Types"}
 OUT = "yielded"     # accumulator of a generator function: the list of values yielded so far
 RESERVED = {"from", "at", "end", "open", "in", "let", "have", "show", "fun", "do", "then", "else", "if", "match", "with",
-            "def", "theorem", "by", "where", "local", "section", "namespace", "instance", "class", "structure", "mut"}
+            "def", "theorem", "by", "where", "local", "section", "namespace", "instance", "class", "structure", "mut", "meta"}
 
 
 def lty(t):
